@@ -199,7 +199,9 @@ LEAVES_2 = ["x", "- x", "> x", "# x"]
 # (2d) whole documents: every structural blank run of every line (indentation and the blanks after quote / list
 # markers) respelled with tabs wherever a tab ends on a tab stop
 DOC_LINES = [">", "> a", "> - a", ">- a", ">-  a", ">  - a", ">   a", ">     a", "- a", "-  a", "  a", "   a", "    a", "1. a",
-             ">   - b", "> >  a", "-   - a", "     a", "- <div>", "    foo", "1. <!-- x", "     y -->", "   - a", "    - b"]
+             ">   - b", "> >  a", "-   - a", "     a", "- <div>", "    foo", "1. <!-- x", "     y -->", "   - a", "    - b",
+             # a plain paragraph line, and markers followed by blanks only (empty items, which may not interrupt a paragraph)
+             "a", "*   ", "1.  ", "-   ", "2)  ", "+ ", ">  "]
 STRUCT = re.compile(r"( +)|(>)|([-+*](?= ))|(\d{1,2}[.)](?= ))")
 
 
@@ -359,9 +361,9 @@ def run_shard(sh, acc):
         _, f, K = sh
         c = MAIN[0]
         md = C.build(c)
-        lines = DOC_LINES if K <= 2 else (DOC_LINES[:18] if K == 3 else DOC_LINES[:12])
         if K == 3 and f in DOC_LINES[18:]:
             K = 2
+        lines = DOC_LINES if K <= 2 else (DOC_LINES[:18] if K == 3 else DOC_LINES[:12])
         for d in S.docs_with_first(f, lines, K, both_endings=False):
             ref = acc.call(md.parse, d)
             if ref is CRASH:
